@@ -16,6 +16,7 @@ from decimal import Decimal
 from lib import heap, treeconv
 
 ID = 'C17'
+TECHNIQUE = 'lock-step differential monitor: cached vs uncached parser on identical histories + fingerprints of every cached tree over time'
 RULE = ('histories of 6-30 parse/eval calls over a corpus of sources (literals incl. empty and constant lists/dicts, arithmetic on literals, lambdas, assignments, builtin calls) '
         'repeated verbatim, as near-duplicates wrapped in blanks / tabs / newlines / CR LF / form feed / vertical tab / NBSP / lone CR on either side, and interleaved with failing '
         'sources; budgets ample, default and tight (around the need of the program); names fresh or persistent and shadowing builtins in some calls; after every eval the host '
